@@ -78,7 +78,12 @@ func vh_C10_L3_cwnd_laws() {
 	base := a.cumulativeTSNAckPoint
 	a.cwnd = cwnd
 	a.ssthresh = nondetU32()
-	a.minCwnd = 0
+	a.minCwnd = []uint32{0, mtu / 2, 2 * mtu}[vPick(3)] // any configured floor, also one below the MTU
+	vassume(cwnd >= a.minCwnd) // setCWND never leaves cwnd below the configured minimum
+	floor := mtu
+	if a.minCwnd > floor {
+		floor = a.minCwnd
+	}
 	switch vPick(3) {
 	case 0: // T3 expiry
 		a.t3RTX.start(1000)
@@ -88,7 +93,8 @@ func vh_C10_L3_cwnd_laws() {
 			want = 4 * mtu
 		}
 		vassert(a.ssthresh == want, "T3: ssthresh = max(cwnd/2, 4*MTU)")
-		vassert(a.cwnd == mtu, "T3: cwnd = 1 MTU")
+		vassert(a.cwnd == floor, "T3: cwnd = 1 MTU (or the configured minimum when that is larger)")
+		vassert(a.cwnd >= mtu, "the congestion window never falls below one MTU")
 		vassert(!a.inFastRecovery, "T3 leaves fast recovery")
 		vcover("t3")
 	case 1: // third miss indication: fast retransmit / fast recovery, once
@@ -100,13 +106,18 @@ func vh_C10_L3_cwnd_laws() {
 			want = 4 * mtu
 		}
 		vassert(a.inFastRecovery && a.willRetransmitFast, "three miss indications start fast recovery and a fast retransmit")
-		vassert(a.ssthresh == want && a.cwnd == want, "fast recovery: ssthresh = max(cwnd/2, 4*MTU), cwnd = ssthresh")
+		if want < a.minCwnd {
+			vassert(a.ssthresh == want && a.cwnd == a.minCwnd, "fast recovery: cwnd = ssthresh, not below the configured minimum")
+			want = a.minCwnd
+		} else {
+			vassert(a.ssthresh == want && a.cwnd == want, "fast recovery: ssthresh = max(cwnd/2, 4*MTU), cwnd = ssthresh")
+		}
 		vassert(a.cwnd >= mtu, "the congestion window never falls below one MTU")
 		// a further gap report in the same recovery does not cut again
 		chunks[2].missIndicator = 2
 		sack2 := &chunkSelectiveAck{cumulativeTSNAck: base, advertisedReceiverWindowCredit: 1 << 20, gapAckBlocks: []gapAckBlock{{2, 2}, {4, 4}}}
 		vassert(vDeliver(a, sack2) == nil, "SACK ok")
-		vassert(a.cwnd == want && a.ssthresh == want, "the window is cut once per recovery")
+		vassert(a.cwnd == want, "the window is cut once per recovery")
 		vcover("fast-recovery")
 	case 2: // cumulative ack: growth only with pending data, bounded
 		pending := vPick(2) == 1
@@ -144,9 +155,16 @@ func vh_C10_L4_mtu_bound() {
 	vassert(maxp > 0 && maxp%4 == 0, "payload size positive and aligned")
 	s, _ := a.OpenStream(1, PayloadTypeWebRTCBinary)
 	nmsg := 1 + vPick(2)
+	manySmall := vPick(2) == 1 // several small chunks bundled into one packet
+	if manySmall {
+		nmsg = 6
+	}
 	total := 0
 	for i := 0; i < nmsg; i++ {
-		size := []int{1, maxp, maxp + 1, 2*maxp + 3}[vPick(4)]
+		size := 1
+		if !manySmall {
+			size = []int{1, maxp, maxp + 1, 2*maxp + 3}[vPick(4)]
+		}
 		_, werr := s.WriteSCTP(make([]byte, size), PayloadTypeWebRTCBinary)
 		vassert(werr == nil, "write accepted")
 		total += size
